@@ -34,6 +34,8 @@ func runAsmDomain(domain string, out *bufio.Writer, rng *rand.Rand, thorough boo
 		genConc(out, rng, cnt(3, 200))
 	case "cli":
 		genCLI(out, rng, cnt(400, 20000))
+	case "clilist":
+		genCLIList(out, rng, cnt(400, 10000))
 	case "soup":
 		genSoup(out, rng, cnt(12000, 600000))
 	default:
